@@ -160,6 +160,20 @@ fn check(c: &Case) -> CaseResult {
     check_opened(&mut a, &b, "C03")?;
     check_read_directories(&b, "C03")?;
     check_single_dirs(&b, "C03")?;
+    // every third layout is followed, on the same thread, by a sibling archive that differs only in its tile ids
+    // (all shifted by one) and so has the same section offsets, lengths and counters: nothing remembered from the
+    // first archive may answer for the second
+    let mut sibling = false;
+    if c.l.first_id % 3 == 0 && !c.l.to_end && b.expected.len() <= 3000 {
+        let mut l2 = c.l.clone();
+        l2.first_id += 1;
+        let b2 = writer::build(&l2);
+        if b2.header.root_len == b.header.root_len && b2.header.leaf_len == b.header.leaf_len && b2.bytes.len() == b.bytes.len() {
+            let mut a2 = open(&b2.bytes, c.open)?.map_err(|e| Fail::new(format!("C03/open-err/{how}"), format!("sibling archive (ids shifted by one) is rejected: {e}")))?;
+            check_opened(&mut a2, &b2, "C03").map_err(|f| Fail::new(format!("{}/after-a-sibling-archive", f.sig), format!("second of two archives with identical headers but other tile ids, opened one after the other: {}", f.msg)))?;
+            sibling = true;
+        }
+    }
     let f = &b.facts;
     let nt = f.depth >= 2 || f.has_run || f.shared_offset || f.non_monotonic || f.permuted || f.gapped || f.non_eliding;
     Ok(Meta::new(nt)
@@ -176,6 +190,7 @@ fn check(c: &Case) -> CaseResult {
         .label(c.l.zero_counters != 0, "counters-unknown-0")
         .label(f.prefix_overlap, "same-offset-different-length")
         .label(f.mixed, "tile-entries-and-leaf-pointers-in-one-directory")
+        .label(sibling, "followed-by-a-sibling-with-an-identical-header")
         .label(b.expected.contains_key(&(crate::spec::hilbert::domain_end() - 1)), "addresses-last-tile-id")
         .label(true, super::c01::codec_label(c.l.internal))
         .label(c.open % 3 == 2, "open-async"))
